@@ -46,7 +46,7 @@ def check_instance_of_generic_class_and_get_type_vars(instance: Any) -> Dict[Typ
     if not hasattr(instance, '__orig_class__'):
         return type_vars
 
-    type_variables = get_type_arguments(type(instance).__orig_bases__[0])
+    type_variables = type(instance).__parameters__  # the class's own type parameters (the first base may mix types and TypeVars)
     actual_types = get_type_arguments(instance.__orig_class__)
 
     for i, type_var in enumerate(type_variables):
